@@ -1,5 +1,5 @@
 """Engine B helper: validate an NDJSON trace with TLC against a trace specification (TRACE env, POSTCONDITION on the diameter)."""
-import os, re, subprocess
+import os, re, shutil, subprocess
 from lib import vlib
 
 JAVA = ["java", "-Xss1g", "-Xmx4g", "-Dtlc2.tool.queue.IStateQueue=StateDeque", "-cp", vlib.JAR, "tlc2.TLC", "-workers", "1", "-cleanup", "-noGenerateSpecTE"]
@@ -8,10 +8,14 @@ JAVA = ["java", "-Xss1g", "-Xmx4g", "-Dtlc2.tool.queue.IStateQueue=StateDeque", 
 def validate(pid, module, cfg, trace_path, tag):
     """returns (accepted, detail, event_kind)"""
     meta = os.path.join(vlib.workdir(pid, "tlc_trace_" + tag), "meta")
+    jtmp = os.path.join(vlib.workdir(pid, "tlc_trace_" + tag), "jtmp")
+    shutil.rmtree(jtmp, ignore_errors=True)
+    os.makedirs(jtmp)
     env = dict(os.environ, TRACE=trace_path)
-    p = subprocess.run(JAVA + ["-metadir", meta, "-config", os.path.join(vlib.SPEC, cfg), os.path.join(vlib.SPEC, module + ".tla")],
+    p = subprocess.run(JAVA[:1] + ["-Djava.io.tmpdir=" + jtmp] + JAVA[1:] + ["-metadir", meta, "-config", os.path.join(vlib.SPEC, cfg), os.path.join(vlib.SPEC, module + ".tla")],
                        cwd=vlib.SPEC, env=env, stdout=subprocess.PIPE, stderr=subprocess.STDOUT, text=True, timeout=3000)
     out = p.stdout
+    shutil.rmtree(jtmp, ignore_errors=True)
     if "Model checking completed. No error has been found." in out:
         return True, "", ""
     m = re.search(r'"TRACE-REJECTED at line",\s*(\d+),\s*(\[.*?\])\s*>>', out, re.S)
